@@ -2,6 +2,7 @@
 import enum
 import itertools
 import random
+import struct
 from io import BytesIO
 
 from .. import env, spec, iffparse, workload
@@ -316,6 +317,52 @@ def structured(res, T, rng, tier):
                     observe(res, T, t, cls, mod, model, case, f"pair {pair}")
 
 
+def sampler_older_layouts(res, rng, n):
+    """A Sampler file whose instrument record is in a layout this library re-emits verbatim (no signature, longer or shorter
+    record), carrying non-default options: the options survive the first load AND a save/load of the loaded object."""
+    import rv.api as api
+    from . import c16
+    t = spec.load()["Sampler"]
+    by = {o.name: o for o in t.options}
+    for k in range(n):
+        smp = api.m.Sampler()
+        model = Model(t)
+        for nm in rng.sample(sorted(by), rng.randint(2, len(by))):
+            v = rng.choice(_all_values(by[nm]))
+            setattr(smp, nm, v)
+            model.assign(nm, v)
+            model.sync_partners(nm, smp, res)
+        chunks = [(c[0], c[1]) for c in iffparse.parse(api.Synth(smp).read())]
+        kind, raw, _expect = c16.make_variant(chunks, rng)
+        if rng.random() < 0.4:
+            # a record LONGER than the one this library knows (a newer writer)
+            out, cur = [], None
+            for cid, pl in [(c[0], c[1]) for c in iffparse.parse(raw)]:
+                if cid == b"CHNM":
+                    cur = struct.unpack("<I", pl)[0]
+                if cid == b"CHDT" and cur == 0 and len(pl) >= 0x190:
+                    pl = pl + bytes(rng.randint(1, 8))
+                    kind += "+longer-record"
+                out.append((cid, pl))
+            raw = iffparse.build(out)
+        case = {"type": "Sampler", "layout": kind}
+        res.case(("sampler-older-layout", kind, k))
+        res.count("sampler_older_layout_files")
+        res.hist("sampler_older_layouts", kind)
+        try:
+            first = workload.load(raw).module
+            second = workload.load(api.Synth(first).read()).module
+            third = second.clone()
+        except Exception as e:
+            res.violation(f"C11:older-layout-raises:{workload.exc_key(e)}", f"Sampler in layout {kind} with options set: load / save / load raised {e!r}", case)
+            continue
+        for where, m in (("first load", first), ("after re-save", second), ("after a second re-save", third)):
+            bad = [(o.name, getattr(m, o.name), model.logical(o.name)) for o in t.options if _ival(getattr(m, o.name)) != _ival(model.logical(o.name))]
+            if bad:
+                res.violation(f"C11:older-layout:{where.replace(' ', '-')}:Sampler.{bad[0][0]}", f"Sampler in layout {kind}: {where}: {bad[0][0]} is {bad[0][1]!r}, the file was written with {bad[0][2]!r}", case)
+                break
+
+
 def traffic(res, T, t, mod, rng):
     """Everything else a module lives through between option edits: controller assignments, and for the payload types
     writes to not-yet-exposed user-defined controllers, embedded controller changes, longer envelopes.  None of it is an
@@ -499,6 +546,8 @@ def run_shard(spec_, res):
         res.exhaustive = True
     else:
         random_full(res, spec_["type"], rng, spec_["n"])
+        if spec_["type"] == "Sampler":
+            sampler_older_layouts(res, rng, 40 if spec_["tier"] == "quick" else 300)
     res.count("types_" + spec_["mode"])
 
 
